@@ -29,7 +29,8 @@ class CsvReader(Filter[Iterable[str], Iterable[MutableSequence]]):
 
     def filter(self, items: Iterable[str]) -> Iterable[Dense]:
 
-        lines = iter(csv.reader(iter(filter(None,(i.strip() for i in items))), **self._dialect))
+        #only line terminators are removed: leading and trailing white space belongs to the first and last field
+        lines = iter(csv.reader(iter(filter(None,(i.rstrip('\r\n') for i in items))), **self._dialect))
         first = next(lines)
 
         if self._has_header:
